@@ -405,6 +405,11 @@ class CallMixin:
                  ite_tree(q < r, sel(L.elems, q), sel(L.elems, q + 1)))
             st.assume(z3.Implies(AND(*self.guard, found),
                                  z3.And(to_z3(new.length) == n - 1, z3.ForAll([q], z3.Implies(z3.And(q >= 0, q < n - 1), z3.And(*eqs))))))
+            # the same fact read from the old list's side (element q > r of the old list is element q - 1 of the new one):
+            # logically implied by the clause above, stated so that a term old[q] triggers it
+            eqs2 = []
+            tzip(lambda a_, b_: (eqs2.append(a_ == b_), a_)[1], sel(new.elems, q - 1), sel(L.elems, q))
+            st.assume(z3.Implies(AND(*self.guard, found), z3.ForAll([q], z3.Implies(z3.And(q > r, q < n), z3.And(*eqs2)))))
             self.last_remove = r
             self.assign_to(recv_node, new, st, node)
             return None
@@ -645,6 +650,9 @@ class CallMixin:
         self.may_raise(NOT(ok), "ValueError", node)
         f = self.ufun("py_int", z3.StringSort(), z3.IntSort())
         st.assume(z3.Implies(z3.InRe(z, digits), f(z) == z3.StrToInt(z)))
+        # a leading minus sign negates: int("-" + d) == -int(d) for a plain digit string d
+        tail = z3.SubString(z, 1, z3.Length(z) - 1)
+        st.assume(z3.Implies(z3.And(z3.PrefixOf(z3.StringVal("-"), z), z3.InRe(tail, digits)), f(z) == -z3.StrToInt(tail)))
         return f(z)
 
     def ufun(self, name, *sorts):
@@ -826,6 +834,13 @@ class CallMixin:
             return VConc(float(v))
         if is_int(v) or is_real(v):
             return to_z3(v, "real") if not is_conc(v) else Fraction(v)
+        if is_str(v) and not isinstance(v, str):
+            # float(s) of a symbolic string: nothing is assumed about which strings parse (ValueError unless the
+            # uninterpreted predicate py_float_ok(s)) nor about the value (uninterpreted py_float(s); real arithmetic, A-real)
+            z = to_z3(v)
+            ok = self.ufun("py_float_ok", z3.StringSort(), z3.BoolSort())
+            self.may_raise(NOT(ok(z)), "ValueError", node)
+            return self.ufun("py_float", z3.StringSort(), z3.RealSort())(z)
         raise Unsupported("float() of this value")
 
     def bi_sorted(self, args, kw, node, st):
